@@ -138,7 +138,7 @@ def _fb_res_case(sx, sy):
     ay = (lambda r: r) if sy > 0 else (lambda r: -r)
     d["bbox"] = Derived(lambda qx0, qx1, qy0, qy1, rx, ry: repo(GEOM).BoundingBox(qx0 * ax(rx), qy0 * ay(ry), qx1 * ax(rx), qy1 * ay(ry), crs_obj("EPSG:3857")), "BoundingBox (pixel units x |res|), EPSG:3857")
     d["resolution"] = Derived(lambda rx, ry: repo(TYPES).Resolution(rx, ry), "Resolution(rx, ry)")
-    d["crs"] = None
+    d["crs"] = OneOf(None, CRSShape("EPSG:3857"))  # ignored: the box carries its CRS
     d["shape"] = None
     return d
 
